@@ -758,6 +758,15 @@ class MapOrListValue(ContainerValue):
         self.map_condition = map_condition
         self.label = label
 
+    def __eq__(self, other):
+        if (
+            super().__eq__(other)
+            and self.list_condition == other.list_condition
+            and self.map_condition == other.map_condition
+        ):
+            return True
+        return False
+
     def __repr__(self):
         return (
             f"{self.__class__.__name__}(condition={self.condition!r},"
